@@ -24,18 +24,39 @@ Theorem C27_canonical : forall s o1 o2,
 Proof. exact canonical. Qed.
 Print Assumptions C27_canonical.
 
+(* ---- which objects enter each unique_key, as the source says NOW (C27/Gen.v, regenerated on every run
+   from the unique_key[...] assignments and the key length given to get_unique_type).  The model's key of
+   a new type is DEFINED from these recipes (Model.v: key_kids / func_key_stored), so C27_entries_sound,
+   C27_canonical and C27_new_returns are about the current text: a key built from objects the new type
+   does not itself reference (e.g. the caller's undecayed argument tuple) breaks Proofs.v. *)
+Theorem C27_gen_key_recipes :
+  primitive_key = [KStatic] /\ void_key = [KStatic] /\
+  pointer_key = [KItem] /\                                   (* the item type, stored in ct_itemdescr *)
+  array_key = [KPtr; KLen] /\                                (* the pointer type, stored in ct_stuff, and the length *)
+  function_key = [KResult; KFlags; KNargs; KArgsStored].     (* result, abi+ellipsis, count, the stored (decayed) args *)
+Proof. repeat split; reflexivity. Qed.
+Print Assumptions C27_gen_key_recipes.
+
+(* the decayed arguments are alive whenever the given ones are (the extra test in New never fires) *)
+Theorem C27_decayed_args_alive : forall s sh kids0,
+  reachable s -> forallb (alive_nz (heap s)) kids0 = true ->
+  forallb (alive_nz (heap s)) (ref_kids (heap s) sh kids0) = true.
+Proof. exact ref_kids_alive. Qed.
+Print Assumptions C27_decayed_args_alive.
+
 (* Model fact tied by the raw-level correspondence (function types built from array-typed arguments,
    array types then freed and their addresses reused): the children of a type — hence its key — are the
    objects the type itself references and keeps alive; for a function type these are the result and the
-   DECAYED arguments (array -> its pointer type), see hstep/HNew.  That is what makes C27_entries_sound
+   DECAYED arguments (array -> its pointer type), see Model.ref_kids.  That is what makes C27_entries_sound
    and C27_new_returns provable: a key never holds the address of an object the type does not keep alive. *)
 
 (* building a type returns an object with EXACTLY the requested description — never another
    type that happens to sit behind a stale key or a reused address — namely the live one if there
    is one, else a brand-new object *)
-Theorem C27_new_returns : forall s h sh kids a i,
-  reachable s -> is_agg sh = false -> snd (step s (New h sh kids a)) = ORet i ->
-  let s' := fst (step s (New h sh kids a)) in
+Theorem C27_new_returns : forall s h sh kids0 a i,
+  reachable s -> is_agg sh = false -> snd (step s (New h sh kids0 a)) = ORet i ->
+  let s' := fst (step s (New h sh kids0 a)) in
+  let kids := ref_kids (heap s) sh kids0 in      (* = kids0, except: array arguments of a function decayed *)
   exists o, find_obj i (heap s') = Some o /\ t_zombie o = false /\ t_shape o = sh /\ t_kids o = kids /\
             (In o (heap s) \/ (i = next_oid s /\
                                forall o0, In o0 (heap s) -> t_zombie o0 = false ->
@@ -57,6 +78,7 @@ Theorem C27_rebuild_after_free : forall s i o h sh kids a r,
   snd (step s (Free i)) = ODone ->
   t_shape o = sh -> t_kids o = kids ->
   let s1 := fst (step s (Free i)) in
+  ref_kids (heap s1) sh kids = kids ->
   snd (step s1 (New h sh kids a)) = ORet r -> r = next_oid s1.
 Proof. exact rebuild_after_free. Qed.
 Print Assumptions C27_rebuild_after_free.
